@@ -45,6 +45,64 @@ def _const_table(mod, name):
     return None
 
 
+
+def token_conservation_rule(ck, ix):
+    """uncertainty_tokenizer rewrites the token stream.  Tokens taken with next(toklist) are either syntax of the
+    uncertainty notation (+ / - ( ) whose presence the branch guard has asserted by look-ahead) or content.  (1) every
+    token bound to a name reaches a yielded token (directly, as a field of a rebuilt token, or through _finalize_e);
+    (2) a token that is consumed *conditionally* (only present for some inputs: the unary minus of '(-3 +/- 1)') is
+    content and must be yielded as it is."""
+    tok = ix.func(PE, "uncertainty_tokenizer")
+    ck.analysed(tok)
+    from ..lib import defs_of
+    defs = defs_of(tok)
+    is_next = lambda c: isinstance(c, ast.Call) and isinstance(c.func, ast.Name) and c.func.id == "next" and c.args and norm(c.args[0]) == "toklist"
+    yields = [y for y in walk_local(tok.node) if isinstance(y, ast.Yield) and y.value is not None]
+    yroots = set()
+    for y in yields:
+        yroots |= defs.roots(y.value)
+    yielded_names = {n.id for y in yields for n in ast.walk(y.value) if isinstance(n, ast.Name)}
+    # names that flow into yielded names through assignments (one fixpoint over the def table)
+    flow = set(yielded_names)
+    changed = True
+    while changed:
+        changed = False
+        for name, ds in defs.defs.items():
+            if name in flow:
+                for (v, kind, st) in ds:
+                    if v is None:
+                        continue
+                    for n in ast.walk(v):
+                        if isinstance(n, ast.Name) and n.id not in flow:
+                            flow.add(n.id)
+                            changed = True
+    named = [a for a in walk_local(tok.node) if isinstance(a, ast.Assign) and is_next(a.value) and isinstance(a.targets[0], ast.Name)]
+    ck.floor("G-TYPESTATE", len(named), 3, "tokens bound to names in uncertainty_tokenizer")
+    for a in named:
+        nm = a.targets[0].id
+        ck.check(nm in flow, "G-TYPESTATE", f"uncertainty_tokenizer|consumed-token-reaches-output|{nm}", tok.loc(a), f"token `{nm}` reaches a yielded token", f"the token bound to `{nm}` is consumed and never reaches the output stream")
+    # conditional consumption inside the main loop body
+    def owner(n):
+        while n is not None and not isinstance(n, (ast.FunctionDef, ast.AsyncFunctionDef, ast.Lambda)):
+            n = getattr(n, "_parent", None)
+        return n
+    main_branches = [n for n in walk_local(tok.node) if isinstance(n, ast.If) and owner(n) is tok.node]
+    cond = 0
+    for iff in main_branches:
+        par = getattr(iff, "_parent", None)
+        # an If nested inside a branch of the dispatch chain (its parent is an If/elif body of the for loop), not the chain itself
+        if not isinstance(par, ast.If) or iff in par.orelse:
+            continue
+        for st in iff.body:
+            for c in ast.walk(st):
+                if is_next(c):
+                    cond += 1
+                    ok = isinstance(st, ast.Assign) and st.value is c and isinstance(st.targets[0], ast.Name) and \
+                        any(isinstance(y, ast.Expr) and isinstance(y.value, ast.Yield) and isinstance(y.value.value, ast.Name) and y.value.value.id == st.targets[0].id for y in iff.body)
+                    ck.check(ok, "G-TYPESTATE", f"uncertainty_tokenizer|optional-token-is-yielded|if {norm(iff.test)}", tok.loc(st), "an optional token is passed on unchanged",
+                             f"under `if {norm(iff.test)}:` a token is consumed with `{norm(st)}` and not yielded: an optional token (the sign of the nominal value) is content, dropping it changes the value")
+    ck.floor("G-TYPESTATE", cond, 1, "conditionally consumed tokens in uncertainty_tokenizer")
+
 def run(ck, ix, tier):
     rs = Resolver(ix)
     pe = ix.module(PE)
@@ -174,6 +232,8 @@ def run(ck, ix, tier):
     ck.check(ok, "G-TWIN", "uncertainty_tokenizer|exponent-sign-sets-agree", tok.loc(), "the exponent look-ahead and the token consumer accept the same signs {+, -}",
              f"the exponent look-ahead accepts {[v for v, _ in sets.get('_get_possible_e', [])]} but the consumer handles {[v for v, _ in sets.get('_finalize_e', [])]}: tokens of an accepted exponent leak back into the expression")
     ck.check("input_string.replace('±', '+/-')" in norm(tok.node), "G-TABLE", "uncertainty_tokenizer|plus-minus-sign", tok.loc(), "± is rewritten to +/-", "± is no longer rewritten to +/-")
+
+    token_conservation_rule(ck, ix)
 
     # ------------------------------------------------------------ (c) literal typing (shared with C02)
     fi = ix.func(U, "ParserHelper.eval_token")
